@@ -156,6 +156,18 @@ def build(spec):
     return o, X, y, fitkw
 
 
+def plain_scalar(v):
+    """json default: numpy scalars as the python numbers they stand for (a JSON round trip turns them into those)"""
+    import numpy as np
+    if isinstance(v, np.integer):
+        return int(v)
+    if isinstance(v, np.floating):
+        return float(v)
+    if isinstance(v, np.bool_):
+        return bool(v)
+    return str(v)
+
+
 def norm_json(text):
     """JSON export normalised for what has no meaning: dict key order and the order of the
     feature lists (they are built through set())."""
@@ -415,7 +427,7 @@ class History:
                             kept = set(obj.features)
                             rows = [{k: r[k] for k in keys if k in r} for r in fr.reset_index(drop=True).to_dict('records')
                                     if r.get('feature') in kept and 'combination' in r and not isnan(r.get('combination'))]
-                            return json.dumps(rows, default=str, sort_keys=True), None
+                            return json.dumps(rows, default=plain_scalar, sort_keys=True), None
                         except Exception as e2:
                             return None, type(e2).__name__
                     (h1, hx1), (h2, hx2) = hist(o), hist(o2)
@@ -464,7 +476,7 @@ class History:
                 def rows_of(fr, only=None):
                     recs = fr.reset_index(drop=True).to_dict('records') if fr is not None and len(fr) else []
                     return json.dumps([{k: r[k] for k in keys if k in r} for r in recs if only is None or r.get('feature') == only],
-                                      default=str, sort_keys=True)
+                                      default=plain_scalar, sort_keys=True)
                 hist_ok = rows_of(o.history(feature)) == rows_of(o.history(), only=feature)
             except Exception:
                 hist_ok = False
